@@ -2,6 +2,7 @@ package main
 
 import (
 	"crypto/elliptic"
+	"math/rand"
 
 	"github.com/cloudflare/pat-go/ecdsa"
 	"github.com/cloudflare/pat-go/tokens/type3"
@@ -85,6 +86,7 @@ func genOrigin(c *ctx, emit func(ev)) {
 	for _, n := range originLengths(c) {
 		name := alnum(r, n)
 		emit(ev{"op": "Pad", "name": B(name)})
+		emit(ev{"op": "Pad", "name": B(utf8Name(r, n))})
 		if n >= 1 {
 			// inner NUL, trailing NUL (outside the property for recovery, still padded correctly)
 			v := append([]byte{}, name...)
@@ -106,6 +108,17 @@ func genOrigin(c *ctx, emit func(ev)) {
 	}
 	for i, n := range hl {
 		name := alnum(r, n)
+		switch i % 5 { // names are byte strings: multi-byte UTF-8 and arbitrary bytes too (never a trailing NUL)
+		case 1:
+			name = utf8Name(r, n)
+		case 3:
+			name = randBytes(r, n)
+			for k := range name {
+				if name[k] == 0 {
+					name[k] = 0x80
+				}
+			}
+		}
 		variants := [][]byte{append(append([]byte{}, name...), 'a'), append(append([]byte{}, name...), 0)}
 		if n >= 1 {
 			lastChanged := append([]byte{}, name...)
@@ -118,6 +131,8 @@ func genOrigin(c *ctx, emit func(ev)) {
 			}
 		}
 		steps := []any{}
+		short := []byte("s.example")
+		steps = append(steps, ev{"k": "R", "o": B(short)})
 		for _, v := range variants {
 			steps = append(steps, ev{"k": "R", "o": B(v)})
 		}
@@ -132,6 +147,24 @@ func genOrigin(c *ctx, emit func(ev)) {
 			steps = append(steps, ev{"k": "E", "name": B(variants[len(variants)-1])})
 			steps = append(steps, ev{"k": "E", "name": B(name[:n/2])})
 		}
+		// a short registered name is still served after requests for longer names on the same issuer
+		steps = append(steps, ev{"k": "E", "name": B(short)})
 		emit(ev{"op": "Hist", "rsa": i % 4, "steps": steps})
 	}
+}
+
+// utf8Name is a name of exactly n bytes containing multi-byte UTF-8 characters (its length in characters is smaller).
+func utf8Name(r *rand.Rand, n int) []byte {
+	out := []byte{}
+	for len(out) < n {
+		switch {
+		case n-len(out) >= 3 && r.Intn(3) == 0:
+			out = append(out, "\u20ac"...) // 3 bytes
+		case n-len(out) >= 2 && r.Intn(2) == 0:
+			out = append(out, "\u00fc"...) // 2 bytes
+		default:
+			out = append(out, byte('a'+r.Intn(26)))
+		}
+	}
+	return out
 }
